@@ -80,13 +80,33 @@ class ScopeContext:
     async def __aenter__(self) -> None:
         await self._task_group_context.__aenter__()
 
-        if self._disposables is not None:
-            self._state_context = StateContext.updated(
-                (*self._state, *await self._disposables.__aenter__())
-            )
+        try:
+            if self._disposables is not None:
+                self._state_context = StateContext.updated(
+                    (*self._state, *await self._disposables.__aenter__())
+                )
 
-        else:
-            self._state_context = StateContext.updated(self._state)
+            else:
+                self._state_context = StateContext.updated(self._state)
+
+        except BaseException as exc:
+            # entering failed or was cancelled - nothing can be left behind
+            try:
+                await self._task_group_context.__aexit__(
+                    exc_type=type(exc),
+                    exc_val=exc,
+                    exc_tb=exc.__traceback__,
+                )
+
+            finally:  # finish prepared metrics scope to let the enclosing one complete
+                self._metrics_context.__enter__()
+                self._metrics_context.__exit__(
+                    exc_type=type(exc),
+                    exc_val=exc,
+                    exc_tb=exc.__traceback__,
+                )
+
+            raise
 
         self._state_context.__enter__()
         self._metrics_context.__enter__()
@@ -107,7 +127,7 @@ class ScopeContext:
                 )
 
         except BaseException as exc:
-            # disposing failed or was cancelled - remaining steps have to know, tasks need to be cancelled
+            # disposing failed or was cancelled - remaining steps have to know about it
             exc_type, exc_val, exc_tb = type(exc), exc, exc.__traceback__
             raise
 
